@@ -67,9 +67,20 @@ package storage
 //@ func (*IndexedStore).indexKey
 //@   trusted
 //@   pure
-//@ func (Index).ValueOf
+// The entry key of a non-unique index is "<value>/<object id>": the separator is what keeps two
+// objects from sharing one entry (value "x" of object "ab" against value "xa" of object "b") and
+// what makes the entries sort by value first.
+//@ func field:Index.ValueFunc
 //@   trusted
 //@   modifies nothing
+//@ func (Index).ValueOf
+//@   props C15
+//@   opt strings=seq
+//@   requires o != nil && idx.ValueFunc != nil
+//@   modifies nothing
+//@   ensures [unique-key-is-value] result1 == nil && idx.Unique ==> result0 == callresult(ValueFunc, 0)
+//@   ensures [entry-key-separated] result1 == nil && !idx.Unique ==> result0 == callresult(ValueFunc, 0) + "/" + o.ObjectID()
+//@   ensures result1 == callresult(ValueFunc, 1)
 //@ func (BinaryObject).ObjectID
 //@   trusted
 //@   pure
@@ -85,6 +96,7 @@ package storage
 //@ func (*IndexedStore).putTx
 //@   props C15
 //@   requires s != nil && tx != nil && o != nil && !gfi(tx, failed, bool)
+//@   requires forall k int :: 0 <= k && k < len(s.indexes) ==> s.indexes[k].ValueFunc != nil
 //@   ensures [rejected-exists] callresult(GetTx, 1) == nil && !allowReplace ==> result == ErrObjectExists && result != nil && !called(Put) && !called(Delete)
 //@   ensures [rejected-lookup] callresult(GetTx, 1) != nil && (callresult(GetTx, 1) != ErrNoObjectExists || requireReplace) ==> result == callresult(GetTx, 1) && !called(Put) && !called(Delete)
 //@   ensures [all-writes-succeeded] result == nil ==> !gfi(tx, failed, bool) && called(Put)
@@ -96,6 +108,7 @@ package storage
 //@ func (*IndexedStore).DeleteTx
 //@   props C15
 //@   requires s != nil && tx != nil && !gfi(tx, failed, bool)
+//@   requires forall k int :: 0 <= k && k < len(s.indexes) ==> s.indexes[k].ValueFunc != nil
 //@   ensures [missing-noop] callresult(GetTx, 1) == ErrNoObjectExists ==> result == nil && !called(Delete)
 //@   ensures [lookup-failed] callresult(GetTx, 1) != nil && callresult(GetTx, 1) != ErrNoObjectExists ==> result == callresult(GetTx, 1) && !called(Delete)
 //@   ensures [all-writes-succeeded] result == nil ==> !gfi(tx, failed, bool)
